@@ -9,6 +9,12 @@ type nat =
 | O
 | S of nat
 
+(** val option_map : ('a1 -> 'a2) -> 'a1 option -> 'a2 option **)
+
+let option_map f = function
+| Some a -> Some (f a)
+| None -> None
+
 (** val fst : ('a1 * 'a2) -> 'a1 **)
 
 let fst = function
@@ -53,6 +59,15 @@ module Coq__1 = struct
 end
 include Coq__1
 
+(** val sub : nat -> nat -> nat **)
+
+let rec sub n0 m =
+  match n0 with
+  | O -> n0
+  | S k -> (match m with
+            | O -> n0
+            | S l -> sub k l)
+
 module Nat =
  struct
   (** val eqb : nat -> nat -> bool **)
@@ -65,7 +80,33 @@ module Nat =
     | S n' -> (match m with
                | O -> false
                | S m' -> eqb n' m')
+
+  (** val leb : nat -> nat -> bool **)
+
+  let rec leb n0 m =
+    match n0 with
+    | O -> true
+    | S n' -> (match m with
+               | O -> false
+               | S m' -> leb n' m')
+
+  (** val ltb : nat -> nat -> bool **)
+
+  let ltb n0 m =
+    leb (S n0) m
  end
+
+(** val hd_error : 'a1 list -> 'a1 option **)
+
+let hd_error = function
+| [] -> None
+| x :: _ -> Some x
+
+(** val tl : 'a1 list -> 'a1 list **)
+
+let tl = function
+| [] -> []
+| _ :: m -> m
 
 (** val nth : nat -> 'a1 list -> 'a1 -> 'a1 **)
 
@@ -77,6 +118,25 @@ let rec nth n0 l default =
   | S m -> (match l with
             | [] -> default
             | _ :: t -> nth m t default)
+
+(** val nth_error : 'a1 list -> nat -> 'a1 option **)
+
+let rec nth_error l = function
+| O -> (match l with
+        | [] -> None
+        | x :: _ -> Some x)
+| S n1 -> (match l with
+           | [] -> None
+           | _ :: l0 -> nth_error l0 n1)
+
+(** val last : 'a1 list -> 'a1 -> 'a1 **)
+
+let rec last l d =
+  match l with
+  | [] -> d
+  | a :: l0 -> (match l0 with
+                | [] -> a
+                | _ :: _ -> last l0 d)
 
 (** val rev : 'a1 list -> 'a1 list **)
 
@@ -90,6 +150,46 @@ let rec rev_append l l' =
   match l with
   | [] -> l'
   | a :: l0 -> rev_append l0 (a :: l')
+
+(** val map : ('a1 -> 'a2) -> 'a1 list -> 'a2 list **)
+
+let rec map f = function
+| [] -> []
+| a :: t -> (f a) :: (map f t)
+
+(** val existsb : ('a1 -> bool) -> 'a1 list -> bool **)
+
+let rec existsb f = function
+| [] -> false
+| a :: l0 -> (||) (f a) (existsb f l0)
+
+(** val forallb : ('a1 -> bool) -> 'a1 list -> bool **)
+
+let rec forallb f = function
+| [] -> true
+| a :: l0 -> (&&) (f a) (forallb f l0)
+
+(** val filter : ('a1 -> bool) -> 'a1 list -> 'a1 list **)
+
+let rec filter f = function
+| [] -> []
+| x :: l0 -> if f x then x :: (filter f l0) else filter f l0
+
+(** val find : ('a1 -> bool) -> 'a1 list -> 'a1 option **)
+
+let rec find f = function
+| [] -> None
+| x :: tl0 -> if f x then Some x else find f tl0
+
+(** val combine : 'a1 list -> 'a2 list -> ('a1 * 'a2) list **)
+
+let rec combine l l' =
+  match l with
+  | [] -> []
+  | x :: tl0 ->
+    (match l' with
+     | [] -> []
+     | y :: tl' -> (x, y) :: (combine tl0 tl'))
 
 (** val firstn : nat -> 'a1 list -> 'a1 list **)
 
@@ -108,6 +208,12 @@ let rec skipn n0 l =
   | S n1 -> (match l with
              | [] -> []
              | _ :: l0 -> skipn n1 l0)
+
+(** val seq : nat -> nat -> nat list **)
+
+let rec seq start = function
+| O -> []
+| S len1 -> start :: (seq (S start) len1)
 
 type positive =
 | XI of positive
@@ -304,10 +410,10 @@ module Coq_Pos =
 
   (** val iter_op : ('a1 -> 'a1 -> 'a1) -> positive -> 'a1 -> 'a1 **)
 
-  let rec iter_op op p a =
+  let rec iter_op op0 p a =
     match p with
-    | XI p0 -> op a (iter_op op p0 (op a a))
-    | XO p0 -> iter_op op p0 (op a a)
+    | XI p0 -> op0 a (iter_op op0 p0 (op0 a a))
+    | XO p0 -> iter_op op0 p0 (op0 a a)
     | XH -> a
 
   (** val to_nat : positive -> nat **)
@@ -1409,6 +1515,1370 @@ let run_dec = function
          | None -> s_bad)
       | _ :: _ -> s_bad))
 
+type tid = nat
+
+(** val exec : ('a1 -> tid -> 'a1 option) -> 'a1 -> tid -> 'a1 **)
+
+let exec step0 s t =
+  match step0 s t with
+  | Some s' -> s'
+  | None -> s
+
+(** val run : ('a1 -> tid -> 'a1 option) -> 'a1 -> tid list -> 'a1 **)
+
+let rec run step0 s = function
+| [] -> s
+| t :: r -> run step0 (exec step0 s t) r
+
+(** val enabled : ('a1 -> tid -> 'a1 option) -> 'a1 -> tid -> bool **)
+
+let enabled step0 s t =
+  match step0 s t with
+  | Some _ -> true
+  | None -> false
+
+(** val go :
+    ('a1 -> tid -> 'a1 option) -> ('a1 -> tid -> bool) -> nat -> 'a1 -> tid
+    -> tid list -> 'a1 * tid list **)
+
+let rec go step0 parked0 fuel s t tr =
+  match fuel with
+  | O -> (s, tr)
+  | S f ->
+    (match step0 s t with
+     | Some s' ->
+       if parked0 s' t
+       then (s', (t :: tr))
+       else go step0 parked0 f s' t (t :: tr)
+     | None -> (s, tr))
+
+(** val autonomous :
+    ('a1 -> tid -> 'a1 option) -> ('a1 -> tid -> bool) -> 'a1 -> tid -> bool **)
+
+let autonomous step0 parked0 s t =
+  (&&) (negb (parked0 s t)) (enabled step0 s t)
+
+(** val settle :
+    ('a1 -> tid -> 'a1 option) -> ('a1 -> tid -> bool) -> ('a1 -> nat) -> nat
+    -> 'a1 -> tid list -> 'a1 * tid list **)
+
+let rec settle step0 parked0 nthreads0 fuel s tr =
+  match fuel with
+  | O -> (s, tr)
+  | S f ->
+    (match find (autonomous step0 parked0 s) (seq O (nthreads0 s)) with
+     | Some t ->
+       let (s', tr') = go step0 parked0 fuel s t tr in
+       settle step0 parked0 nthreads0 f s' tr'
+     | None -> (s, tr))
+
+(** val macro1 :
+    ('a1 -> tid -> 'a1 option) -> ('a1 -> tid -> bool) -> ('a1 -> tid ->
+    bool) -> ('a1 -> nat) -> nat -> 'a1 -> tid -> tid list -> 'a1 * tid list **)
+
+let macro1 step0 parked0 skip0 nthreads0 fuel s t tr =
+  if (&&) ((&&) (parked0 s t) (enabled step0 s t)) (negb (skip0 s t))
+  then let (s', tr') = go step0 parked0 fuel s t tr in
+       settle step0 parked0 nthreads0 fuel s' tr'
+  else (s, tr)
+
+(** val macro :
+    ('a1 -> tid -> 'a1 option) -> ('a1 -> tid -> bool) -> ('a1 -> tid ->
+    bool) -> ('a1 -> nat) -> nat -> 'a1 -> tid list -> tid list -> 'a1 * tid
+    list **)
+
+let rec macro step0 parked0 skip0 nthreads0 fuel s sch tr =
+  match sch with
+  | [] -> (s, tr)
+  | t :: r ->
+    let (s', tr') = macro1 step0 parked0 skip0 nthreads0 fuel s t tr in
+    macro step0 parked0 skip0 nthreads0 fuel s' r tr'
+
+type op =
+| OFirst
+| OLast
+| OGet of nat
+| OStore of bool
+| ODelete of nat
+| OSet
+| OGetS
+| OClose
+
+type outcome =
+| Ok of nat
+| NotFound
+| ErrClosed
+| ErrSealed
+| IOErr
+| MetaErr
+| Panic
+
+type hnd = { h_base : nat; h_cnt : nat; h_sealed : bool; h_closes : nat }
+
+type fin =
+| FUnset
+| FNil
+| FSet of nat list
+
+type st = { s_ref : nat; s_fin : fin; s_open : bool; s_segs : nat list;
+            s_min : nat }
+
+type shared = { g_closed : bool; g_mu : tid option; g_trig : bool;
+                g_trig_closed : bool; g_await : nat option;
+                g_chans : bool list; g_cur : nat; g_states : st list;
+                g_hnds : hnd list; g_meta_closes : nat; g_stable : nat }
+
+type kont =
+| KRet
+| KUnlock
+| KOuter of nat
+| KRot
+
+type pc =
+| PIdle
+| PChecked
+| PLock
+| PLocked
+| PWaiting of nat
+| PRecvAwait of nat
+| PRelock
+| PLoad
+| PLoaded of nat
+| PAcq of nat
+| PBody of nat
+| PTrig of nat
+| PSend of nat
+| PM0 of kont
+| PM1 of nat * kont
+| PM2 of nat * kont
+| PM3 of nat * kont
+| PM4 of nat * fin * kont
+| PRel of nat * outcome * kont
+| PLast of nat * outcome * kont
+| PRun of nat list * outcome * kont
+| PUnl of outcome
+| PCFlag
+| PCLock
+| PCLocked
+| PC3
+| PC4
+| PC5 of nat
+| PC6 of nat
+| PCSwapped of nat
+| PC8 of nat
+| PRIdle
+| PRRecv
+| PRLock
+| PRLocked
+| PRExit
+| PRT3
+| PRT4 of nat option
+| PRT5 of nat option
+| PRDone
+| PPanic
+
+type thread = { t_rot : bool; t_prog : op list; t_outs : outcome list;
+                t_pc : pc }
+
+type sys = { sh : shared; ths : thread list }
+
+(** val upd : 'a1 list -> nat -> 'a1 -> 'a1 list **)
+
+let rec upd l i x =
+  match l with
+  | [] -> []
+  | a :: r -> (match i with
+               | O -> x :: r
+               | S j -> a :: (upd r j x))
+
+(** val dst : st **)
+
+let dst =
+  { s_ref = O; s_fin = FUnset; s_open = false; s_segs = []; s_min = O }
+
+(** val dh : hnd **)
+
+let dh =
+  { h_base = O; h_cnt = O; h_sealed = false; h_closes = O }
+
+(** val getst : shared -> nat -> st **)
+
+let getst g x =
+  nth x g.g_states dst
+
+(** val geth : shared -> nat -> hnd **)
+
+let geth g h =
+  nth h g.g_hnds dh
+
+(** val set_states : shared -> st list -> shared **)
+
+let set_states g l =
+  { g_closed = g.g_closed; g_mu = g.g_mu; g_trig = g.g_trig; g_trig_closed =
+    g.g_trig_closed; g_await = g.g_await; g_chans = g.g_chans; g_cur =
+    g.g_cur; g_states = l; g_hnds = g.g_hnds; g_meta_closes =
+    g.g_meta_closes; g_stable = g.g_stable }
+
+(** val set_hnds : shared -> hnd list -> shared **)
+
+let set_hnds g l =
+  { g_closed = g.g_closed; g_mu = g.g_mu; g_trig = g.g_trig; g_trig_closed =
+    g.g_trig_closed; g_await = g.g_await; g_chans = g.g_chans; g_cur =
+    g.g_cur; g_states = g.g_states; g_hnds = l; g_meta_closes =
+    g.g_meta_closes; g_stable = g.g_stable }
+
+(** val set_mu : shared -> tid option -> shared **)
+
+let set_mu g m =
+  { g_closed = g.g_closed; g_mu = m; g_trig = g.g_trig; g_trig_closed =
+    g.g_trig_closed; g_await = g.g_await; g_chans = g.g_chans; g_cur =
+    g.g_cur; g_states = g.g_states; g_hnds = g.g_hnds; g_meta_closes =
+    g.g_meta_closes; g_stable = g.g_stable }
+
+(** val set_closed : shared -> shared **)
+
+let set_closed g =
+  { g_closed = true; g_mu = g.g_mu; g_trig = g.g_trig; g_trig_closed =
+    g.g_trig_closed; g_await = g.g_await; g_chans = g.g_chans; g_cur =
+    g.g_cur; g_states = g.g_states; g_hnds = g.g_hnds; g_meta_closes =
+    g.g_meta_closes; g_stable = g.g_stable }
+
+(** val set_trig : shared -> bool -> bool -> shared **)
+
+let set_trig g b c =
+  { g_closed = g.g_closed; g_mu = g.g_mu; g_trig = b; g_trig_closed = c;
+    g_await = g.g_await; g_chans = g.g_chans; g_cur = g.g_cur; g_states =
+    g.g_states; g_hnds = g.g_hnds; g_meta_closes = g.g_meta_closes;
+    g_stable = g.g_stable }
+
+(** val set_await : shared -> nat option -> bool list -> shared **)
+
+let set_await g a cs =
+  { g_closed = g.g_closed; g_mu = g.g_mu; g_trig = g.g_trig; g_trig_closed =
+    g.g_trig_closed; g_await = a; g_chans = cs; g_cur = g.g_cur; g_states =
+    g.g_states; g_hnds = g.g_hnds; g_meta_closes = g.g_meta_closes;
+    g_stable = g.g_stable }
+
+(** val set_cur : shared -> nat -> st list -> shared **)
+
+let set_cur g c l =
+  { g_closed = g.g_closed; g_mu = g.g_mu; g_trig = g.g_trig; g_trig_closed =
+    g.g_trig_closed; g_await = g.g_await; g_chans = g.g_chans; g_cur = c;
+    g_states = l; g_hnds = g.g_hnds; g_meta_closes = g.g_meta_closes;
+    g_stable = g.g_stable }
+
+(** val set_meta : shared -> nat -> nat -> shared **)
+
+let set_meta g m s =
+  { g_closed = g.g_closed; g_mu = g.g_mu; g_trig = g.g_trig; g_trig_closed =
+    g.g_trig_closed; g_await = g.g_await; g_chans = g.g_chans; g_cur =
+    g.g_cur; g_states = g.g_states; g_hnds = g.g_hnds; g_meta_closes = m;
+    g_stable = s }
+
+(** val st_ref : st -> nat -> st **)
+
+let st_ref s r =
+  { s_ref = r; s_fin = s.s_fin; s_open = s.s_open; s_segs = s.s_segs; s_min =
+    s.s_min }
+
+(** val st_fin : st -> fin -> st **)
+
+let st_fin s f =
+  { s_ref = s.s_ref; s_fin = f; s_open = s.s_open; s_segs = s.s_segs; s_min =
+    s.s_min }
+
+(** val upd_st : shared -> nat -> st -> shared **)
+
+let upd_st g x s =
+  set_states g (upd g.g_states x s)
+
+(** val close_h : hnd -> hnd **)
+
+let close_h h =
+  { h_base = h.h_base; h_cnt = h.h_cnt; h_sealed = h.h_sealed; h_closes = (S
+    h.h_closes) }
+
+(** val close_all : hnd list -> nat list -> hnd list **)
+
+let rec close_all l = function
+| [] -> l
+| h :: r -> close_all (upd l h (close_h (nth h l dh))) r
+
+(** val tail_of : st -> nat **)
+
+let tail_of s =
+  last s.s_segs O
+
+(** val last_index : shared -> st -> nat **)
+
+let last_index g s =
+  let t = geth g (tail_of s) in
+  if Nat.ltb O t.h_cnt
+  then sub (add t.h_base t.h_cnt) (S O)
+  else if Nat.leb (S (S O)) (length s.s_segs) then sub t.h_base (S O) else O
+
+(** val first_index : shared -> st -> nat **)
+
+let first_index g s =
+  if (&&) (Nat.eqb (length s.s_segs) (S O))
+       (Nat.eqb (geth g (tail_of s)).h_cnt O)
+  then O
+  else s.s_min
+
+(** val seg_for : shared -> nat list -> nat -> nat option -> nat option **)
+
+let rec seg_for g segs i acc =
+  match segs with
+  | [] -> acc
+  | h :: r ->
+    if Nat.leb (geth g h).h_base i then seg_for g r i (Some h) else acc
+
+(** val get_log : shared -> st -> nat -> outcome **)
+
+let get_log g s i =
+  let f = first_index g s in
+  if (&&) ((&&) (Nat.ltb O f) (Nat.leb f i)) (Nat.leb i (last_index g s))
+  then (match seg_for g s.s_segs i None with
+        | Some h -> if Nat.ltb O (geth g h).h_closes then IOErr else Ok O
+        | None -> NotFound)
+  else NotFound
+
+(** val split_head :
+    shared -> nat -> nat -> nat list -> nat list * nat list **)
+
+let rec split_head g newMin lastIdx segs = match segs with
+| [] -> ([], [])
+| h :: r ->
+  (match r with
+   | [] -> if Nat.leb newMin lastIdx then ([], segs) else ((h :: []), [])
+   | h2 :: _ ->
+     if Nat.leb newMin (sub (geth g h2).h_base (S O))
+     then ([], segs)
+     else let (a, b) = split_head g newMin lastIdx r in ((h :: a), b))
+
+(** val new_hnd : nat -> hnd **)
+
+let new_hnd base =
+  { h_base = base; h_cnt = O; h_sealed = false; h_closes = O }
+
+(** val mk_state : nat list -> nat -> st **)
+
+let mk_state segs mn =
+  { s_ref = O; s_fin = FUnset; s_open = true; s_segs = segs; s_min = mn }
+
+(** val publish : shared -> st -> shared **)
+
+let publish g s =
+  set_cur g (length g.g_states) (app g.g_states (s :: []))
+
+(** val do_rotate : shared -> nat -> shared * fin **)
+
+let do_rotate g y =
+  let s = getst g y in
+  let t = geth g (tail_of s) in
+  let nh = length g.g_hnds in
+  let g1 = set_hnds g (app g.g_hnds ((new_hnd (add t.h_base t.h_cnt)) :: []))
+  in
+  ((publish g1 (mk_state (app s.s_segs (nh :: [])) s.s_min)), FNil)
+
+(** val do_trunc_head : shared -> nat -> nat -> shared * fin **)
+
+let do_trunc_head g y newMin =
+  let s = getst g y in
+  let li = last_index g s in
+  let (rm, keep) = split_head g newMin li s.s_segs in
+  (match keep with
+   | [] ->
+     let nh = length g.g_hnds in
+     let g1 = set_hnds g (app g.g_hnds ((new_hnd (add li (S O))) :: [])) in
+     ((publish g1 (mk_state (nh :: []) (add li (S O)))), (FSet rm))
+   | _ :: _ -> ((publish g (mk_state keep newMin)), (FSet rm)))
+
+(** val cur_op : thread -> op option **)
+
+let cur_op th =
+  hd_error th.t_prog
+
+(** val setpc : thread -> pc -> thread **)
+
+let setpc th p =
+  { t_rot = th.t_rot; t_prog = th.t_prog; t_outs = th.t_outs; t_pc = p }
+
+(** val finish : thread -> outcome -> thread **)
+
+let finish th r =
+  { t_rot = th.t_rot; t_prog = (tl th.t_prog); t_outs =
+    (app th.t_outs (r :: [])); t_pc = PIdle }
+
+(** val panic : thread -> thread **)
+
+let panic th =
+  { t_rot = th.t_rot; t_prog = (tl th.t_prog); t_outs =
+    (app th.t_outs (Panic :: [])); t_pc = PPanic }
+
+(** val is_locking : op -> bool **)
+
+let is_locking = function
+| OStore _ -> true
+| ODelete _ -> true
+| _ -> false
+
+(** val continue : thread -> outcome -> kont -> thread **)
+
+let continue th r = function
+| KRet -> finish th r
+| KUnlock -> setpc th (PUnl r)
+| KOuter x -> setpc th (PRel (x, r, KUnlock))
+| KRot -> setpc th PRT3
+
+(** val step_thread : shared -> tid -> thread -> (shared * thread) option **)
+
+let step_thread g me th =
+  match th.t_pc with
+  | PIdle ->
+    (match cur_op th with
+     | Some o ->
+       (match o with
+        | OClose ->
+          if g.g_closed
+          then Some (g, (finish th (Ok O)))
+          else Some ((set_closed g), (setpc th PCFlag))
+        | _ ->
+          if g.g_closed
+          then Some (g, (finish th ErrClosed))
+          else Some (g, (setpc th PChecked)))
+     | None -> None)
+  | PChecked ->
+    (match cur_op th with
+     | Some o ->
+       (match o with
+        | OSet ->
+          if Nat.ltb O g.g_meta_closes
+          then Some (g, (finish th MetaErr))
+          else Some ((set_meta g g.g_meta_closes (S g.g_stable)),
+                 (finish th (Ok O)))
+        | OGetS ->
+          if Nat.ltb O g.g_meta_closes
+          then Some (g, (finish th MetaErr))
+          else Some (g, (finish th (Ok g.g_stable)))
+        | _ ->
+          if is_locking o
+          then Some (g, (setpc th PLock))
+          else Some (g, (setpc th PLoad)))
+     | None -> None)
+  | PLock ->
+    (match g.g_mu with
+     | Some _ -> None
+     | None -> Some ((set_mu g (Some me)), (setpc th PLocked)))
+  | PLocked ->
+    (match g.g_await with
+     | Some c -> Some ((set_mu g None), (setpc th (PWaiting c)))
+     | None -> Some (g, (setpc th PLoad)))
+  | PWaiting c -> Some (g, (setpc th (PRecvAwait c)))
+  | PRecvAwait c ->
+    if nth c g.g_chans false then Some (g, (setpc th PRelock)) else None
+  | PRelock ->
+    (match g.g_mu with
+     | Some _ -> None
+     | None -> Some ((set_mu g (Some me)), (setpc th PLoad)))
+  | PLoad -> Some (g, (setpc th (PLoaded g.g_cur)))
+  | PLoaded x ->
+    let s = getst g x in
+    Some ((upd_st g x (st_ref s (S s.s_ref))), (setpc th (PAcq x)))
+  | PAcq x ->
+    (match cur_op th with
+     | Some o ->
+       if (getst g x).s_open
+       then Some (g, (setpc th (PBody x)))
+       else Some (g,
+              (setpc th (PRel (x, ErrClosed,
+                (if is_locking o then KUnlock else KRet)))))
+     | None -> None)
+  | PBody x ->
+    let s = getst g x in
+    if negb s.s_open
+    then Some (g, (panic th))
+    else (match cur_op th with
+          | Some o ->
+            (match o with
+             | OFirst ->
+               Some (g, (setpc th (PRel (x, (Ok (first_index g s)), KRet))))
+             | OLast ->
+               Some (g, (setpc th (PRel (x, (Ok (last_index g s)), KRet))))
+             | OGet i ->
+               Some (g, (setpc th (PRel (x, (get_log g s i), KRet))))
+             | OStore seal ->
+               let t = tail_of s in
+               let h = geth g t in
+               if h.h_sealed
+               then Some (g, (setpc th (PRel (x, ErrSealed, KUnlock))))
+               else let h' = { h_base = h.h_base; h_cnt = (S h.h_cnt);
+                      h_sealed = seal; h_closes = h.h_closes }
+                    in
+                    let g' = set_hnds g (upd g.g_hnds t h') in
+                    if seal
+                    then Some (g', (setpc th (PTrig x)))
+                    else Some (g', (setpc th (PRel (x, (Ok O), KUnlock))))
+             | ODelete n0 ->
+               let f = first_index g s in
+               let l = last_index g s in
+               if (||) (Nat.ltb n0 f) (Nat.ltb l (S O))
+               then Some (g, (setpc th (PRel (x, (Ok O), KUnlock))))
+               else Some (g, (setpc th (PM0 (KOuter x))))
+             | _ -> None)
+          | None -> None)
+  | PTrig x ->
+    if g.g_closed
+    then Some (g, (setpc th (PRel (x, (Ok O), KUnlock))))
+    else Some
+           ((set_await g (Some (length g.g_chans))
+              (app g.g_chans (false :: []))), (setpc th (PSend x)))
+  | PSend x ->
+    if g.g_trig_closed
+    then Some (g, (panic th))
+    else if g.g_trig
+         then None
+         else Some ((set_trig g true false),
+                (setpc th (PRel (x, (Ok O), KUnlock))))
+  | PM0 k -> Some (g, (setpc th (PM1 (g.g_cur, k))))
+  | PM1 (y, k) ->
+    let s = getst g y in
+    if negb s.s_open
+    then Some (g, (panic th))
+    else Some ((upd_st g y (st_ref s (S s.s_ref))), (setpc th (PM2 (y, k))))
+  | PM2 (y, k) ->
+    if Nat.ltb O g.g_meta_closes
+    then Some (g, (setpc th (PRel (y, MetaErr, k))))
+    else Some (g, (setpc th (PM3 (y, k))))
+  | PM3 (y, k) ->
+    let (g', f) =
+      match k with
+      | KRot -> do_rotate g y
+      | _ ->
+        (match cur_op th with
+         | Some o ->
+           (match o with
+            | ODelete n0 -> do_trunc_head g y (add n0 (S O))
+            | _ -> (g, FNil))
+         | None -> (g, FNil))
+    in
+    Some (g', (setpc th (PM4 (y, f, k))))
+  | PM4 (y, f, k) ->
+    Some ((upd_st g y (st_fin (getst g y) f)),
+      (setpc th (PRel (y, (Ok O), k))))
+  | PRel (x, r, k) ->
+    let s = getst g x in
+    let g' = upd_st g x (st_ref s (sub s.s_ref (S O))) in
+    if Nat.eqb s.s_ref (S O)
+    then Some (g', (setpc th (PLast (x, r, k))))
+    else Some (g', (continue th r k))
+  | PLast (x, r, k) ->
+    let s = getst g x in
+    let g' = upd_st g x (st_fin s FNil) in
+    (match s.s_fin with
+     | FSet hs -> Some (g', (setpc th (PRun (hs, r, k))))
+     | _ -> Some (g', (continue th r k)))
+  | PRun (hs, r, k) ->
+    Some ((set_hnds g (close_all g.g_hnds hs)), (continue th r k))
+  | PUnl r -> Some ((set_mu g None), (finish th r))
+  | PCFlag -> Some (g, (setpc th PCLock))
+  | PCLock ->
+    (match g.g_mu with
+     | Some _ -> None
+     | None -> Some ((set_mu g (Some me)), (setpc th PCLocked)))
+  | PCLocked ->
+    (match g.g_await with
+     | Some c ->
+       if nth c g.g_chans false
+       then Some (g, (panic th))
+       else Some ((set_await g None (upd g.g_chans c true)), (setpc th PC3))
+     | None -> Some (g, (setpc th PC3)))
+  | PC3 ->
+    if g.g_trig_closed
+    then Some (g, (panic th))
+    else Some ((set_trig g g.g_trig true), (setpc th PC4))
+  | PC4 -> Some (g, (setpc th (PC5 g.g_cur)))
+  | PC5 x ->
+    let s = getst g x in
+    Some ((upd_st g x (st_ref s (S s.s_ref))), (setpc th (PC6 x)))
+  | PC6 x -> Some ((publish g dst), (setpc th (PCSwapped x)))
+  | PCSwapped x ->
+    let s = getst g x in
+    if negb s.s_open
+    then Some (g, (panic th))
+    else Some ((upd_st g x (st_fin s (FSet s.s_segs))), (setpc th (PC8 x)))
+  | PC8 x ->
+    Some ((set_meta g (S g.g_meta_closes) g.g_stable),
+      (setpc th (PRel (x, (Ok O), KUnlock))))
+  | PRIdle ->
+    if g.g_trig
+    then Some ((set_trig g false g.g_trig_closed), (setpc th PRRecv))
+    else if g.g_trig_closed then Some (g, (setpc th PRRecv)) else None
+  | PRRecv -> Some (g, (setpc th PRLock))
+  | PRLock ->
+    (match g.g_mu with
+     | Some _ -> None
+     | None -> Some ((set_mu g (Some me)), (setpc th PRLocked)))
+  | PRLocked ->
+    if g.g_closed
+    then Some (g, (setpc th PRExit))
+    else Some (g, (setpc th (PM0 KRot)))
+  | PRExit -> Some ((set_mu g None), (setpc th PRDone))
+  | PRT3 -> Some ((set_await g None g.g_chans), (setpc th (PRT4 g.g_await)))
+  | PRT4 d -> Some ((set_mu g None), (setpc th (PRT5 d)))
+  | PRT5 d ->
+    (match d with
+     | Some c ->
+       if nth c g.g_chans false
+       then Some (g, (panic th))
+       else Some ((set_await g g.g_await (upd g.g_chans c true)),
+              (setpc th PRIdle))
+     | None -> Some (g, (panic th)))
+  | _ -> None
+
+(** val step : sys -> tid -> sys option **)
+
+let step s t =
+  match nth_error s.ths t with
+  | Some th ->
+    (match step_thread s.sh t th with
+     | Some p ->
+       let (g', th') = p in Some { sh = g'; ths = (upd s.ths t th') }
+     | None -> None)
+  | None -> None
+
+(** val init_shared : shared **)
+
+let init_shared =
+  { g_closed = false; g_mu = None; g_trig = false; g_trig_closed = false;
+    g_await = None; g_chans = []; g_cur = O; g_states =
+    ((mk_state (O :: []) (S O)) :: []); g_hnds = ((new_hnd (S O)) :: []);
+    g_meta_closes = O; g_stable = O }
+
+(** val caller : op list -> thread **)
+
+let caller p =
+  { t_rot = false; t_prog = p; t_outs = []; t_pc = PIdle }
+
+(** val rotator : thread **)
+
+let rotator =
+  { t_rot = true; t_prog = []; t_outs = []; t_pc = PRIdle }
+
+(** val init : op list list -> op list list -> sys **)
+
+let init progs extra =
+  { sh = init_shared; ths =
+    (app (map caller progs) (rotator :: (map caller extra))) }
+
+(** val pc_point : pc -> bool **)
+
+let pc_point = function
+| PChecked -> true
+| PLocked -> true
+| PWaiting _ -> true
+| PLoaded _ -> true
+| PM3 (_, _) -> true
+| PM4 (_, _, _) -> true
+| PLast (_, _, _) -> true
+| PCFlag -> true
+| PCLocked -> true
+| PCSwapped _ -> true
+| PRRecv -> true
+| PRLocked -> true
+| _ -> false
+
+(** val th_done : thread -> bool **)
+
+let th_done th =
+  match th.t_pc with
+  | PIdle -> (match th.t_prog with
+              | [] -> true
+              | _ :: _ -> false)
+  | PRDone -> true
+  | PPanic -> true
+  | _ -> false
+
+(** val th_parked : thread -> bool **)
+
+let th_parked th =
+  (||) ((||) (pc_point th.t_pc) (th_done th))
+    (match th.t_pc with
+     | PIdle -> (match th.t_outs with
+                 | [] -> true
+                 | _ :: _ -> false)
+     | _ -> false)
+
+(** val parked : sys -> tid -> bool **)
+
+let parked s t =
+  match nth_error s.ths t with
+  | Some th -> th_parked th
+  | None -> true
+
+(** val pre_lock : thread -> bool **)
+
+let pre_lock th =
+  match th.t_pc with
+  | PChecked -> (match cur_op th with
+                 | Some o -> is_locking o
+                 | None -> false)
+  | PWaiting _ -> true
+  | PCFlag -> true
+  | PRRecv -> true
+  | _ -> false
+
+(** val th_blocked : thread -> bool **)
+
+let th_blocked th =
+  (&&) (negb (th_parked th))
+    (negb (match th.t_pc with
+           | PRIdle -> true
+           | _ -> false))
+
+(** val skip : sys -> tid -> bool **)
+
+let skip s t =
+  match nth_error s.ths t with
+  | Some th ->
+    (&&) (pre_lock th)
+      (match s.sh.g_mu with
+       | Some o ->
+         (&&) (negb (Nat.eqb o t))
+           (existsb (fun j ->
+             (&&) ((&&) (negb (Nat.eqb j t)) (negb (Nat.eqb j o)))
+               (match nth_error s.ths j with
+                | Some tj -> th_blocked tj
+                | None -> false)) (seq O (length s.ths)))
+       | None -> false)
+  | None -> true
+
+(** val nthreads : sys -> nat **)
+
+let nthreads s =
+  length s.ths
+
+(** val split_on_aux : n -> str -> str -> str list **)
+
+let rec split_on_aux c s cur =
+  match s with
+  | [] -> (rev_append cur []) :: []
+  | x :: r ->
+    if N.eqb x c
+    then (rev_append cur []) :: (split_on_aux c r [])
+    else split_on_aux c r (x :: cur)
+
+(** val split_on : n -> str -> str list **)
+
+let split_on c s =
+  split_on_aux c s []
+
+(** val hexnat : str -> nat option **)
+
+let hexnat s =
+  match hex_to_N s with
+  | Some n0 -> Some (N.to_nat n0)
+  | None -> None
+
+(** val nat_hex : nat -> str **)
+
+let nat_hex n0 =
+  n_to_hex (N.of_nat n0)
+
+(** val all_some : 'a1 option list -> 'a1 list option **)
+
+let rec all_some = function
+| [] -> Some []
+| o :: r ->
+  (match o with
+   | Some a -> (match all_some r with
+                | Some t -> Some (a :: t)
+                | None -> None)
+   | None -> None)
+
+(** val parse_op14 : str -> op option **)
+
+let parse_op14 = function
+| [] -> None
+| n0 :: r ->
+  (match n0 with
+   | N0 -> None
+   | Npos p ->
+     (match p with
+      | XI p0 ->
+        (match p0 with
+         | XI p1 ->
+           (match p1 with
+            | XI p2 ->
+              (match p2 with
+               | XO p3 ->
+                 (match p3 with
+                  | XO p4 ->
+                    (match p4 with
+                     | XO p5 ->
+                       (match p5 with
+                        | XH -> option_map (fun x -> OGet x) (hexnat r)
+                        | _ -> None)
+                     | _ -> None)
+                  | _ -> None)
+               | _ -> None)
+            | XO p2 ->
+              (match p2 with
+               | XI p3 ->
+                 (match p3 with
+                  | XO p4 ->
+                    (match p4 with
+                     | XI p5 ->
+                       (match p5 with
+                        | XH ->
+                          (match r with
+                           | [] -> Some OGetS
+                           | _ :: _ -> None)
+                        | _ -> None)
+                     | XO p5 ->
+                       (match p5 with
+                        | XH ->
+                          (match r with
+                           | [] -> Some OSet
+                           | _ :: _ -> None)
+                        | _ -> None)
+                     | XH -> None)
+                  | _ -> None)
+               | XO p3 ->
+                 (match p3 with
+                  | XI p4 ->
+                    (match p4 with
+                     | XO p5 ->
+                       (match p5 with
+                        | XH ->
+                          (match r with
+                           | [] -> None
+                           | n1 :: l ->
+                             (match n1 with
+                              | N0 -> None
+                              | Npos p6 ->
+                                (match p6 with
+                                 | XI p7 ->
+                                   (match p7 with
+                                    | XO p8 ->
+                                      (match p8 with
+                                       | XO p9 ->
+                                         (match p9 with
+                                          | XO p10 ->
+                                            (match p10 with
+                                             | XI p11 ->
+                                               (match p11 with
+                                                | XH ->
+                                                  (match l with
+                                                   | [] -> Some (OStore true)
+                                                   | _ :: _ -> None)
+                                                | _ -> None)
+                                             | _ -> None)
+                                          | _ -> None)
+                                       | _ -> None)
+                                    | _ -> None)
+                                 | XO p7 ->
+                                   (match p7 with
+                                    | XO p8 ->
+                                      (match p8 with
+                                       | XO p9 ->
+                                         (match p9 with
+                                          | XO p10 ->
+                                            (match p10 with
+                                             | XI p11 ->
+                                               (match p11 with
+                                                | XH ->
+                                                  (match l with
+                                                   | [] -> Some (OStore false)
+                                                   | _ :: _ -> None)
+                                                | _ -> None)
+                                             | _ -> None)
+                                          | _ -> None)
+                                       | _ -> None)
+                                    | _ -> None)
+                                 | XH -> None)))
+                        | _ -> None)
+                     | _ -> None)
+                  | _ -> None)
+               | XH -> None)
+            | XH -> None)
+         | _ -> None)
+      | XO p0 ->
+        (match p0 with
+         | XI p1 ->
+           (match p1 with
+            | XI p2 ->
+              (match p2 with
+               | XO p3 ->
+                 (match p3 with
+                  | XO p4 ->
+                    (match p4 with
+                     | XO p5 ->
+                       (match p5 with
+                        | XH ->
+                          (match r with
+                           | [] -> Some OFirst
+                           | _ :: _ -> None)
+                        | _ -> None)
+                     | _ -> None)
+                  | _ -> None)
+               | _ -> None)
+            | _ -> None)
+         | XO p1 ->
+           (match p1 with
+            | XI p2 ->
+              (match p2 with
+               | XI p3 ->
+                 (match p3 with
+                  | XO p4 ->
+                    (match p4 with
+                     | XO p5 ->
+                       (match p5 with
+                        | XH ->
+                          (match r with
+                           | [] -> Some OLast
+                           | _ :: _ -> None)
+                        | _ -> None)
+                     | _ -> None)
+                  | _ -> None)
+               | XO p3 ->
+                 (match p3 with
+                  | XO p4 ->
+                    (match p4 with
+                     | XO p5 ->
+                       (match p5 with
+                        | XH -> option_map (fun x -> ODelete x) (hexnat r)
+                        | _ -> None)
+                     | _ -> None)
+                  | _ -> None)
+               | XH -> None)
+            | XO p2 ->
+              (match p2 with
+               | XI p3 ->
+                 (match p3 with
+                  | XI p4 ->
+                    (match p4 with
+                     | XO p5 ->
+                       (match p5 with
+                        | XH ->
+                          (match r with
+                           | [] -> Some OClose
+                           | _ :: _ -> None)
+                        | _ -> None)
+                     | _ -> None)
+                  | _ -> None)
+               | _ -> None)
+            | XH -> None)
+         | XH -> None)
+      | XH -> None))
+
+(** val parse_prog14 : str -> op list option **)
+
+let parse_prog14 s = match s with
+| [] ->
+  all_some (map parse_op14 (split_on (Npos (XO (XI (XI (XI (XO XH)))))) s))
+| n0 :: l ->
+  (match n0 with
+   | N0 ->
+     all_some (map parse_op14 (split_on (Npos (XO (XI (XI (XI (XO XH)))))) s))
+   | Npos p ->
+     (match p with
+      | XI p0 ->
+        (match p0 with
+         | XO p1 ->
+           (match p1 with
+            | XI p2 ->
+              (match p2 with
+               | XI p3 ->
+                 (match p3 with
+                  | XO p4 ->
+                    (match p4 with
+                     | XH ->
+                       (match l with
+                        | [] -> Some []
+                        | _ :: _ ->
+                          all_some
+                            (map parse_op14
+                              (split_on (Npos (XO (XI (XI (XI (XO XH)))))) s)))
+                     | _ ->
+                       all_some
+                         (map parse_op14
+                           (split_on (Npos (XO (XI (XI (XI (XO XH)))))) s)))
+                  | _ ->
+                    all_some
+                      (map parse_op14
+                        (split_on (Npos (XO (XI (XI (XI (XO XH)))))) s)))
+               | _ ->
+                 all_some
+                   (map parse_op14
+                     (split_on (Npos (XO (XI (XI (XI (XO XH)))))) s)))
+            | _ ->
+              all_some
+                (map parse_op14
+                  (split_on (Npos (XO (XI (XI (XI (XO XH)))))) s)))
+         | _ ->
+           all_some
+             (map parse_op14 (split_on (Npos (XO (XI (XI (XI (XO XH)))))) s)))
+      | _ ->
+        all_some
+          (map parse_op14 (split_on (Npos (XO (XI (XI (XI (XO XH)))))) s))))
+
+(** val show_outcome : op -> outcome -> str **)
+
+let show_outcome o = function
+| Ok v ->
+  (match o with
+   | OFirst ->
+     app s_ok (app ((Npos (XO (XI (XO (XI (XI XH)))))) :: []) (nat_hex v))
+   | OLast ->
+     app s_ok (app ((Npos (XO (XI (XO (XI (XI XH)))))) :: []) (nat_hex v))
+   | OGet _ ->
+     app s_ok (app ((Npos (XO (XI (XO (XI (XI XH)))))) :: []) (nat_hex v))
+   | OGetS ->
+     app s_ok
+       (app ((Npos (XO (XI (XO (XI (XI XH)))))) :: [])
+         (nat_hex (if Nat.ltb O v then S O else O)))
+   | _ -> s_ok)
+| NotFound ->
+  (Npos (XO (XI (XI (XI (XO (XI XH))))))) :: ((Npos (XO (XI (XI (XO (XO (XI
+    XH))))))) :: [])
+| ErrClosed ->
+  (Npos (XI (XI (XO (XO (XO (XI XH))))))) :: ((Npos (XO (XO (XI (XI (XO (XI
+    XH))))))) :: ((Npos (XI (XI (XI (XI (XO (XI XH))))))) :: ((Npos (XI (XI
+    (XO (XO (XI (XI XH))))))) :: ((Npos (XI (XO (XI (XO (XO (XI
+    XH))))))) :: ((Npos (XO (XO (XI (XO (XO (XI XH))))))) :: [])))))
+| ErrSealed ->
+  (Npos (XI (XI (XO (XO (XI (XI XH))))))) :: ((Npos (XI (XO (XI (XO (XO (XI
+    XH))))))) :: ((Npos (XI (XO (XO (XO (XO (XI XH))))))) :: ((Npos (XO (XO
+    (XI (XI (XO (XI XH))))))) :: ((Npos (XI (XO (XI (XO (XO (XI
+    XH))))))) :: ((Npos (XO (XO (XI (XO (XO (XI XH))))))) :: [])))))
+| IOErr ->
+  (Npos (XI (XO (XO (XI (XO (XI XH))))))) :: ((Npos (XI (XI (XI (XI (XO (XI
+    XH))))))) :: ((Npos (XI (XO (XI (XO (XO (XI XH))))))) :: ((Npos (XO (XI
+    (XO (XO (XI (XI XH))))))) :: ((Npos (XO (XI (XO (XO (XI (XI
+    XH))))))) :: []))))
+| MetaErr ->
+  (Npos (XI (XO (XI (XI (XO (XI XH))))))) :: ((Npos (XI (XO (XI (XO (XO (XI
+    XH))))))) :: ((Npos (XO (XO (XI (XO (XI (XI XH))))))) :: ((Npos (XI (XO
+    (XO (XO (XO (XI XH))))))) :: ((Npos (XI (XO (XI (XO (XO (XI
+    XH))))))) :: ((Npos (XO (XI (XO (XO (XI (XI XH))))))) :: ((Npos (XO (XI
+    (XO (XO (XI (XI XH))))))) :: []))))))
+| Panic ->
+  (Npos (XO (XO (XO (XO (XI (XI XH))))))) :: ((Npos (XI (XO (XO (XO (XO (XI
+    XH))))))) :: ((Npos (XO (XI (XI (XI (XO (XI XH))))))) :: ((Npos (XI (XO
+    (XO (XI (XO (XI XH))))))) :: ((Npos (XI (XI (XO (XO (XO (XI
+    XH))))))) :: []))))
+
+(** val join_with : n -> str list -> str **)
+
+let rec join_with c = function
+| [] -> []
+| x :: r -> (match r with
+             | [] -> x
+             | _ :: _ -> app x (c :: (join_with c r)))
+
+(** val zip_show : op list -> outcome list -> str list **)
+
+let rec zip_show p o =
+  match p with
+  | [] -> []
+  | a :: p' ->
+    (match o with
+     | [] -> []
+     | b :: o' -> (show_outcome a b) :: (zip_show p' o'))
+
+(** val fuel14 : nat **)
+
+let fuel14 =
+  S (S (S (S (S (S (S (S (S (S (S (S (S (S (S (S (S (S (S (S (S (S (S (S (S
+    (S (S (S (S (S (S (S (S (S (S (S (S (S (S (S (S (S (S (S (S (S (S (S (S
+    (S (S (S (S (S (S (S (S (S (S (S (S (S (S (S (S (S (S (S (S (S (S (S (S
+    (S (S (S (S (S (S (S (S (S (S (S (S (S (S (S (S (S (S (S (S (S (S (S (S
+    (S (S (S (S (S (S (S (S (S (S (S (S (S (S (S (S (S (S (S (S (S (S (S (S
+    (S (S (S (S (S (S (S (S (S (S (S (S (S (S (S (S (S (S (S (S (S (S (S (S
+    (S (S (S (S (S (S (S (S (S (S (S (S (S (S (S (S (S (S (S (S (S (S (S (S
+    (S (S (S (S (S (S (S (S (S (S (S (S (S (S (S (S (S (S (S (S (S (S (S (S
+    (S (S (S (S (S (S (S (S (S (S (S (S (S (S (S (S (S (S (S (S (S (S (S (S
+    (S (S (S (S (S (S (S (S (S (S (S (S (S (S (S (S (S (S (S (S (S (S (S (S
+    (S (S (S (S (S (S (S (S (S (S (S (S (S (S (S (S (S (S (S (S (S (S (S (S
+    (S (S (S (S (S (S (S (S (S (S (S (S (S (S (S (S (S (S (S (S (S (S (S (S
+    (S (S (S (S (S (S (S (S (S (S (S (S (S (S (S (S (S (S (S (S (S (S (S (S
+    (S (S (S (S (S (S (S (S (S (S (S (S (S (S (S (S (S (S (S (S (S (S (S (S
+    (S (S (S (S (S (S (S (S (S (S (S (S (S (S (S (S (S (S (S (S (S (S (S (S
+    (S (S (S (S (S (S (S (S (S (S (S (S (S (S (S (S (S (S (S (S (S (S (S (S
+    (S (S (S (S (S (S (S (S (S (S (S (S (S (S (S
+    O)))))))))))))))))))))))))))))))))))))))))))))))))))))))))))))))))))))))))))))))))))))))))))))))))))))))))))))))))))))))))))))))))))))))))))))))))))))))))))))))))))))))))))))))))))))))))))))))))))))))))))))))))))))))))))))))))))))))))))))))))))))))))))))))))))))))))))))))))))))))))))))))))))))))))))))))))))))))))))))))))))))))))))))))))))))))))))))))))))))))))))))))))))))))))))))))))))))))))))))))
+
+(** val macro14 : sys -> tid -> tid list -> sys * tid list **)
+
+let macro14 =
+  macro1 step parked skip nthreads fuel14
+
+(** val run_call : nat -> sys -> tid -> nat -> tid list -> sys * tid list **)
+
+let rec run_call fuel s t nouts tr =
+  match fuel with
+  | O -> (s, tr)
+  | S f ->
+    (match step s t with
+     | Some s' ->
+       let tr' = t :: tr in
+       (match nth_error s'.ths t with
+        | Some th ->
+          if Nat.ltb nouts (length th.t_outs)
+          then (s', tr')
+          else run_call f s' t nouts tr'
+        | None -> (s', tr'))
+     | None -> (s, tr))
+
+(** val run_free : nat -> sys -> tid -> tid list -> sys * tid list **)
+
+let rec run_free fuel s t tr =
+  match fuel with
+  | O -> (s, tr)
+  | S f ->
+    (match step s t with
+     | Some s' -> run_free f s' t (t :: tr)
+     | None -> (s, tr))
+
+(** val run_setup : nat -> sys -> tid -> tid -> tid list -> sys * tid list **)
+
+let rec run_setup n0 s ts tr_ tr =
+  match n0 with
+  | O -> (s, tr)
+  | S m ->
+    let nouts =
+      match nth_error s.ths ts with
+      | Some th -> length th.t_outs
+      | None -> O
+    in
+    let (s1, tr1) = run_call fuel14 s ts nouts tr in
+    let (s2, tr2) = run_free fuel14 s1 tr_ tr1 in run_setup m s2 ts tr_ tr2
+
+(** val callers_done : sys -> nat -> bool **)
+
+let callers_done s n0 =
+  forallb (fun t ->
+    match nth_error s.ths t with
+    | Some th -> th_done th
+    | None -> true) (seq O n0)
+
+(** val round : sys -> tid list -> tid list -> sys * tid list **)
+
+let rec round s ids tr =
+  match ids with
+  | [] -> (s, tr)
+  | t :: r -> let (s', tr') = macro14 s t tr in round s' r tr'
+
+(** val drain : nat -> nat -> sys -> tid list -> sys * tid list **)
+
+let rec drain rounds n0 s tr =
+  match rounds with
+  | O -> (s, tr)
+  | S k ->
+    if callers_done s n0
+    then (s, tr)
+    else let (s', tr') = round s (seq O (S n0)) tr in
+         if Nat.eqb (length tr') (length tr)
+         then (s', tr')
+         else drain k n0 s' tr'
+
+(** val finish_rot : nat -> sys -> tid -> tid list -> sys * tid list **)
+
+let rec finish_rot k s r tr =
+  match k with
+  | O -> (s, tr)
+  | S j ->
+    (match nth_error s.ths r with
+     | Some th ->
+       if pc_point th.t_pc
+       then let (s', tr') = macro14 s r tr in finish_rot j s' r tr'
+       else (s, tr)
+     | None -> (s, tr))
+
+(** val micro14 : op list -> op list list -> tid list -> tid list **)
+
+let micro14 setup progs sch =
+  let n0 = length progs in
+  let s0 = init progs (setup :: []) in
+  let (s1, tr1) = run_setup (length setup) s0 (S n0) n0 [] in
+  let (s2, tr2) = macro step parked skip nthreads fuel14 s1 sch tr1 in
+  let (s3, tr3) =
+    drain (S (S (S (S (S (S (S (S (S (S (S (S (S (S (S (S (S (S (S (S (S (S
+      (S (S (S (S (S (S (S (S (S (S (S (S (S (S (S (S (S (S (S (S (S (S (S (S
+      (S (S (S (S (S (S (S (S (S (S (S (S (S (S (S (S (S (S (S (S (S (S (S (S
+      (S (S (S (S (S (S (S (S (S (S (S (S (S (S (S (S (S (S (S (S (S (S (S (S
+      (S (S (S (S (S (S (S (S (S (S (S (S (S (S (S (S (S (S (S (S (S (S (S (S
+      (S (S (S (S (S (S (S (S (S (S (S (S (S (S (S (S (S (S (S (S (S (S (S (S
+      (S (S (S (S (S (S (S (S (S (S (S (S (S (S (S (S (S (S (S (S (S (S (S (S
+      (S (S (S (S (S (S (S (S (S (S (S (S (S (S (S (S (S (S (S (S (S (S (S (S
+      (S (S (S (S (S (S (S (S (S (S (S (S (S (S (S (S (S (S (S (S (S (S (S (S
+      (S (S (S (S (S (S (S (S (S (S (S (S (S (S (S (S (S (S (S (S (S (S (S (S
+      (S (S (S (S (S (S (S (S (S (S (S (S (S (S (S (S (S (S (S (S (S (S (S (S
+      (S (S (S (S (S (S (S (S (S (S (S (S (S (S (S (S (S (S (S (S (S (S (S (S
+      (S (S (S (S (S (S (S (S (S (S (S (S (S (S (S (S (S (S (S (S (S (S (S (S
+      (S (S (S (S (S (S (S (S (S (S (S (S (S (S (S (S (S (S (S (S (S (S (S (S
+      (S (S (S (S (S (S (S (S (S (S (S (S (S (S (S (S (S (S (S (S (S (S (S (S
+      (S (S (S (S (S (S (S (S (S (S (S (S (S (S (S (S (S (S (S (S (S (S (S (S
+      (S (S (S (S (S (S (S (S (S (S (S (S (S (S (S (S (S (S
+      O))))))))))))))))))))))))))))))))))))))))))))))))))))))))))))))))))))))))))))))))))))))))))))))))))))))))))))))))))))))))))))))))))))))))))))))))))))))))))))))))))))))))))))))))))))))))))))))))))))))))))))))))))))))))))))))))))))))))))))))))))))))))))))))))))))))))))))))))))))))))))))))))))))))))))))))))))))))))))))))))))))))))))))))))))))))))))))))))))))))))))))))))))))))))))))))))))))))))))))))))
+      n0 s2 tr2
+  in
+  let (_, tr4) =
+    finish_rot (S (S (S (S (S (S (S (S (S (S (S (S (S (S (S (S (S (S (S (S (S
+      (S (S (S (S (S (S (S (S (S (S (S (S (S (S (S (S (S (S (S
+      O)))))))))))))))))))))))))))))))))))))))) s3 n0 tr3
+  in
+  rev_append tr4 []
+
+(** val s_dl : str **)
+
+let s_dl =
+  (Npos (XI (XI (XO (XI (XI XH)))))) :: ((Npos (XO (XO (XI (XO (XO (XI
+    XH))))))) :: ((Npos (XO (XO (XI (XI (XO (XI XH))))))) :: ((Npos (XI (XO
+    (XI (XI (XI XH)))))) :: [])))
+
+(** val s_rot : str **)
+
+let s_rot =
+  (Npos (XO (XO (XO (XO (XO XH)))))) :: ((Npos (XO (XI (XO (XO (XI (XI
+    XH))))))) :: ((Npos (XI (XI (XI (XI (XO (XI XH))))))) :: ((Npos (XO (XO
+    (XI (XO (XI (XI XH))))))) :: ((Npos (XI (XO (XI (XI (XI XH)))))) :: []))))
+
+(** val s_mc : str **)
+
+let s_mc =
+  (Npos (XO (XO (XO (XO (XO XH)))))) :: ((Npos (XI (XO (XI (XI (XO (XI
+    XH))))))) :: ((Npos (XI (XI (XO (XO (XO (XI XH))))))) :: ((Npos (XI (XO
+    (XI (XI (XI XH)))))) :: [])))
+
+(** val s_open0 : str **)
+
+let s_open0 =
+  (Npos (XO (XO (XO (XO (XO XH)))))) :: ((Npos (XI (XI (XI (XI (XO (XI
+    XH))))))) :: ((Npos (XO (XO (XO (XO (XI (XI XH))))))) :: ((Npos (XI (XO
+    (XI (XO (XO (XI XH))))))) :: ((Npos (XO (XI (XI (XI (XO (XI
+    XH))))))) :: ((Npos (XI (XO (XI (XI (XI XH)))))) :: [])))))
+
+(** val s_multi : str **)
+
+let s_multi =
+  (Npos (XO (XO (XO (XO (XO XH)))))) :: ((Npos (XI (XO (XI (XI (XO (XI
+    XH))))))) :: ((Npos (XI (XO (XI (XO (XI (XI XH))))))) :: ((Npos (XO (XO
+    (XI (XI (XO (XI XH))))))) :: ((Npos (XO (XO (XI (XO (XI (XI
+    XH))))))) :: ((Npos (XI (XO (XO (XI (XO (XI XH))))))) :: ((Npos (XI (XO
+    (XI (XI (XI XH)))))) :: []))))))
+
+(** val has_closed : thread -> op list -> bool **)
+
+let has_closed th p =
+  existsb (fun o -> match o with
+                    | OClose -> true
+                    | _ -> false) (firstn (length th.t_outs) p)
+
+(** val observe14 : op list list -> sys -> str **)
+
+let observe14 progs s =
+  let n0 = length progs in
+  let per =
+    map (fun pat ->
+      let (t, p) = pat in
+      (match nth_error s.ths t with
+       | Some th ->
+         app
+           (join_with (Npos (XO (XI (XI (XI (XO XH))))))
+             (zip_show p th.t_outs))
+           (if Nat.ltb (length th.t_outs) (length p)
+            then (Npos (XO (XI (XO (XI (XO XH)))))) :: []
+            else [])
+       | None -> [])) (combine (seq O n0) progs)
+  in
+  let dl = negb (callers_done s n0) in
+  let closed =
+    existsb (fun pat ->
+      let (t, p) = pat in
+      (match nth_error s.ths t with
+       | Some th -> has_closed th p
+       | None -> false)) (combine (seq O n0) progs)
+  in
+  let rot =
+    match nth_error s.ths n0 with
+    | Some th -> th_done th
+    | None -> false
+  in
+  let nopen = length (filter (fun h -> Nat.eqb h.h_closes O) s.sh.g_hnds) in
+  let nmulti = length (filter (fun h -> Nat.ltb (S O) h.h_closes) s.sh.g_hnds)
+  in
+  app (join_with (Npos (XO (XO (XI (XI (XI (XI XH))))))) per)
+    (app s_dl
+      (app
+        (if dl
+         then (Npos (XI (XO (XO (XO (XI XH)))))) :: []
+         else (Npos (XO (XO (XO (XO (XI XH)))))) :: [])
+        (app s_rot
+          (app
+            (if (&&) closed (negb dl)
+             then if rot
+                  then (Npos (XI (XO (XO (XO (XI XH)))))) :: []
+                  else (Npos (XO (XO (XO (XO (XI XH)))))) :: []
+             else (Npos (XO (XO (XO (XI (XI (XI XH))))))) :: [])
+            (app s_mc
+              (app (nat_hex s.sh.g_meta_closes)
+                (app s_open0
+                  (app (nat_hex nopen) (app s_multi (nat_hex nmulti))))))))))
+
+(** val parse_sched : str -> tid list option **)
+
+let rec parse_sched = function
+| [] -> Some []
+| c :: r ->
+  (match hexval c with
+   | Some v ->
+     (match parse_sched r with
+      | Some t -> Some ((N.to_nat v) :: t)
+      | None -> None)
+   | None -> None)
+
+(** val run_c14 : str list -> str **)
+
+let run_c14 = function
+| [] -> s_bad
+| setup :: l ->
+  (match l with
+   | [] -> s_bad
+   | threads :: l0 ->
+     (match l0 with
+      | [] -> s_bad
+      | sch :: l1 ->
+        (match l1 with
+         | [] ->
+           (match parse_prog14 setup with
+            | Some su ->
+              (match all_some
+                       (map parse_prog14
+                         (split_on (Npos (XO (XO (XI (XI (XO XH)))))) threads)) with
+               | Some progs ->
+                 (match parse_sched sch with
+                  | Some sc ->
+                    observe14 progs
+                      (run step (init progs (su :: [])) (micro14 su progs sc))
+                  | None -> s_bad)
+               | None -> s_bad)
+            | None -> s_bad)
+         | _ :: _ -> s_bad)))
+
+(** val k_c14 : str **)
+
+let k_c14 =
+  (Npos (XI (XI (XO (XO (XO (XI XH))))))) :: ((Npos (XI (XO (XO (XO (XI
+    XH)))))) :: ((Npos (XO (XO (XI (XO (XI XH)))))) :: []))
+
+(** val run_sched : str list -> str **)
+
+let run_sched = function
+| [] -> s_bad
+| sc :: rest -> if str_eqb sc k_c14 then run_c14 rest else s_bad
+
 (** val k_enc : str **)
 
 let k_enc =
@@ -1421,6 +2891,14 @@ let k_dec =
   (Npos (XO (XO (XI (XO (XO (XI XH))))))) :: ((Npos (XI (XO (XI (XO (XO (XI
     XH))))))) :: ((Npos (XI (XI (XO (XO (XO (XI XH))))))) :: []))
 
+(** val k_sched : str **)
+
+let k_sched =
+  (Npos (XI (XI (XO (XO (XI (XI XH))))))) :: ((Npos (XI (XI (XO (XO (XO (XI
+    XH))))))) :: ((Npos (XO (XO (XO (XI (XO (XI XH))))))) :: ((Npos (XI (XO
+    (XI (XO (XO (XI XH))))))) :: ((Npos (XO (XO (XI (XO (XO (XI
+    XH))))))) :: []))))
+
 (** val run_line : str -> str **)
 
 let run_line line =
@@ -1429,4 +2907,6 @@ let run_line line =
   | cmd :: args ->
     if str_eqb cmd k_enc
     then run_enc args
-    else if str_eqb cmd k_dec then run_dec args else s_bad
+    else if str_eqb cmd k_dec
+         then run_dec args
+         else if str_eqb cmd k_sched then run_sched args else s_bad
